@@ -355,4 +355,7 @@ package asp
 //@   opt panics=allowed
 //@   opt appendalias=on
 //@   callsite asList the_right_operand_of_a_comparison [C18]: arg_obj == operand
+//@   ensures left_then_right [C18 C16]: operator == Add && listlike(operand) ==> dyntype(result, pyList) && \
+//@      len(unbox(result, pyList)) == len(l) + len(ite(dyntype(operand, pyList), unbox(operand, pyList), unbox(operand, pyFrozenList).pyList)) && \
+//@      (forall i int :: 0 <= i && i < len(l) ==> unbox(result, pyList)[i] == l[i])
 //@   ensures comparison_goes_through_asList [C18]: operator == LessThan ==> called("asList")
